@@ -227,19 +227,19 @@ theorem seek_correct (cur off w : Int) (dc : Bool) (offs : Offsets) :
     (seek cur off w dc offs).toSpec = KV.Spec.Offsets.seekSpec cur off w dc offs := by
   by_cases h0 : w = 0
   · subst h0; cases dc <;> rcases offs with _ | ⟨f, l⟩ <;>
-      simp [seek, seekStart, seekAbsolute, seekEnd, seekCurrent, KV.Spec.Offsets.seekSpec, KV.Spec.Offsets.unchecked, seekTarget, rangeIf]
+      simp [seek, seekStart, seekAbsolute, seekEnd, seekCurrent, KV.Gen.Offsets.seekStart, KV.Gen.Offsets.seekAbsolute, KV.Gen.Offsets.seekEnd, KV.Gen.Offsets.seekCurrent, KV.Gen.Offsets.firstOffset, KV.Gen.Offsets.lastOffset, KV.Spec.Offsets.seekSpec, KV.Spec.Offsets.unchecked, seekTarget, rangeIf]
   by_cases h1 : w = 1
   · subst h1
     by_cases hc : off = cur <;> cases dc <;> rcases offs with _ | ⟨f, l⟩ <;>
-      simp [seek, seekStart, seekAbsolute, seekEnd, seekCurrent, KV.Spec.Offsets.seekSpec, KV.Spec.Offsets.unchecked, seekTarget, rangeIf, hc]
+      simp [seek, seekStart, seekAbsolute, seekEnd, seekCurrent, KV.Gen.Offsets.seekStart, KV.Gen.Offsets.seekAbsolute, KV.Gen.Offsets.seekEnd, KV.Gen.Offsets.seekCurrent, KV.Gen.Offsets.firstOffset, KV.Gen.Offsets.lastOffset, KV.Spec.Offsets.seekSpec, KV.Spec.Offsets.unchecked, seekTarget, rangeIf, hc]
   by_cases h2 : w = 2
   · subst h2; cases dc <;> rcases offs with _ | ⟨f, l⟩ <;>
-      simp [seek, seekStart, seekAbsolute, seekEnd, seekCurrent, KV.Spec.Offsets.seekSpec, KV.Spec.Offsets.unchecked, seekTarget, rangeIf]
+      simp [seek, seekStart, seekAbsolute, seekEnd, seekCurrent, KV.Gen.Offsets.seekStart, KV.Gen.Offsets.seekAbsolute, KV.Gen.Offsets.seekEnd, KV.Gen.Offsets.seekCurrent, KV.Gen.Offsets.firstOffset, KV.Gen.Offsets.lastOffset, KV.Spec.Offsets.seekSpec, KV.Spec.Offsets.unchecked, seekTarget, rangeIf]
   by_cases h3 : w = 3
   · subst h3; cases dc <;> rcases offs with _ | ⟨f, l⟩ <;>
-      simp [seek, seekStart, seekAbsolute, seekEnd, seekCurrent, KV.Spec.Offsets.seekSpec, KV.Spec.Offsets.unchecked, seekTarget, rangeIf]
+      simp [seek, seekStart, seekAbsolute, seekEnd, seekCurrent, KV.Gen.Offsets.seekStart, KV.Gen.Offsets.seekAbsolute, KV.Gen.Offsets.seekEnd, KV.Gen.Offsets.seekCurrent, KV.Gen.Offsets.firstOffset, KV.Gen.Offsets.lastOffset, KV.Spec.Offsets.seekSpec, KV.Spec.Offsets.unchecked, seekTarget, rangeIf]
   · have hb : (w == 0 || w == 1 || w == 2 || w == 3) = false := by simp; omega
-    simp [seek, seekStart, seekAbsolute, seekEnd, seekCurrent, KV.Spec.Offsets.seekSpec, hb]
+    simp [seek, seekStart, seekAbsolute, seekEnd, seekCurrent, KV.Gen.Offsets.seekStart, KV.Gen.Offsets.seekAbsolute, KV.Gen.Offsets.seekEnd, KV.Gen.Offsets.seekCurrent, KV.Gen.Offsets.firstOffset, KV.Gen.Offsets.lastOffset, KV.Spec.Offsets.seekSpec, hb]
 
 example : seek 7 3 2 false (some (0, 100)) = .ok 97 := by decide
 example : seek 7 3 3 true none = .ok 10 := by decide
@@ -262,7 +262,25 @@ theorem offset_roundtrip (cur : Int) (h : cur ≠ -2 ∧ cur ≠ -1) :
     seek 0 (offsetOf cur).1 (offsetOf cur).2 true none = .ok cur := by
   have h1 : (cur == -2) = false := by simpa using h.1
   have h2 : (cur == -1) = false := by simpa using h.2
-  simp [offsetOf, h1, h2, seek, seekStart, seekAbsolute, seekEnd, seekCurrent]
+  simp [offsetOf, h1, h2, seek, seekStart, seekAbsolute, seekEnd, seekCurrent, KV.Gen.Offsets.seekStart, KV.Gen.Offsets.seekAbsolute, KV.Gen.Offsets.seekEnd, KV.Gen.Offsets.seekCurrent, KV.Gen.Offsets.firstOffset, KV.Gen.Offsets.lastOffset]
+
+
+/-! ## regenerated shapes (Gen/Offsets.lean, go/ast over conn.go, reader.go, protocol/listoffsets) -/
+
+/-- the source's Merge sorts topics by name and partitions by (Partition, Offset) — the keys `group` / `partLt`
+use — and Split copies exactly the header fields and the three per-partition fields the model's `split` copies -/
+theorem merge_split_shape :
+    KV.Gen.Offsets.mergeSortFields = ["Topic", "Partition", "Offset"] ∧
+    KV.Gen.Offsets.splitRequestFields = ["IsolationLevel", "ReplicaID", "Topics"] ∧
+    KV.Gen.Offsets.splitInnerFields = ["CurrentLeaderEpoch", "Partition", "Partitions", "Timestamp", "Topic"] := by
+  decide
+
+/-- the placeholder of a failed part is Kafka's UNKNOWN (−1) with no offset, timestamp or epoch, on the failed
+partition; the sentinel timestamps and whence values are the documented ones -/
+theorem regenerated_constants (p : ReqPart) :
+    placeholder p = ⟨p.partition, -1, -1, -1, -1⟩ ∧ firstOffset = -2 ∧ lastOffset = -1 ∧
+    seekStart = 0 ∧ seekAbsolute = 1 ∧ seekEnd = 2 ∧ seekCurrent = 3 ∧ dontCheckBit = 2 ^ 30 := by
+  refine ⟨rfl, rfl, rfl, rfl, rfl, rfl, rfl, by decide⟩
 
 /-! ## field mappings (`mapping_exact`) -/
 
@@ -474,8 +492,8 @@ theorem mapping_exact_listOffsets_step (m : List ((String × Int) × PartitionOf
     by_cases he : p.error = 0 <;>
     simp only [clientApply, List.flatMap_cons, List.flatMap_nil, List.map_cons, List.map_nil, List.append_nil,
       List.foldlM_cons, List.foldlM_nil, hcur, bind, Option.bind, pure] <;>
-    simp [hf, hl, he, firstOffset, lastOffset] at * <;>
-    exact ⟨_, rfl, (hlook _).1, (hlook _).2, by simp_all [firstOffset, lastOffset]⟩
+    simp [hf, hl, he, firstOffset, lastOffset, KV.Gen.Offsets.firstOffset, KV.Gen.Offsets.lastOffset] at * <;>
+    exact ⟨_, rfl, (hlook _).1, (hlook _).2, by simp_all [firstOffset, lastOffset, KV.Gen.Offsets.firstOffset, KV.Gen.Offsets.lastOffset]⟩
 
 end mappings
 
